@@ -172,6 +172,10 @@ pub enum VOp {
     Pop,
     Clear,
     Sync,
+    /// overwrite the elements [a, b) in place (`fill_range_simd`); positions are fractions of len
+    Fill { a: u16, b: u16, v: u64 },
+    /// overwrite one element through `get_mut`
+    Set { i: u16, v: u64 },
 }
 
 #[derive(Clone, Debug, Serialize, Deserialize)]
@@ -310,6 +314,8 @@ fn vop_strategy(ty: u8, small_only: bool, cap_hint: usize) -> BoxedStrategy<VOp>
         1 => Just(VOp::Shrink),
         1 => Just(VOp::Pop),
         1 => Just(VOp::Clear),
+        2 => (any::<u16>(), any::<u16>(), any::<u64>()).prop_map(|(a, b, v)| VOp::Fill { a, b, v }),
+        1 => (any::<u16>(), any::<u64>()).prop_map(|(i, v)| VOp::Set { i, v }),
     ]
     .boxed()
 }
@@ -873,6 +879,19 @@ fn vec_write<T: Elem>(ctx: &mut Ctx, path: &Path, cfg: MmapVecConfig, ops: &[VOp
                 }
                 VOp::Clear => v.clear(),
                 VOp::Sync => v.sync(),
+                VOp::Fill { a, b, v: x } => {
+                    let (a, b) = (idx(*a, v.len() + 1), idx(*b, v.len() + 1));
+                    v.fill_range_simd(a.min(b)..a.max(b), T::from_u64(*x))
+                }
+                VOp::Set { i, v: x } => {
+                    if !v.is_empty() {
+                        let i = idx(*i, v.len());
+                        if let Some(slot) = v.get_mut(i) {
+                            *slot = T::from_u64(*x);
+                        }
+                    }
+                    Ok(())
+                }
             }
         });
         match r {
@@ -901,6 +920,18 @@ fn vec_write<T: Elem>(ctx: &mut Ctx, path: &Path, cfg: MmapVecConfig, ops: &[VOp
                 model.pop();
             }
             VOp::Clear => model.clear(),
+            VOp::Fill { a, b, v: x } => {
+                let (a, b) = (idx(*a, model.len() + 1), idx(*b, model.len() + 1));
+                for e in &mut model[a.min(b)..a.max(b)] {
+                    *e = T::from_u64(*x);
+                }
+            }
+            VOp::Set { i, v: x } => {
+                if !model.is_empty() {
+                    let i = idx(*i, model.len());
+                    model[i] = T::from_u64(*x);
+                }
+            }
             VOp::Reserve(_) | VOp::Shrink => {}
             VOp::Sync => {
                 let file = match std::fs::read(path) {
@@ -910,8 +941,12 @@ fn vec_write<T: Elem>(ctx: &mut Ctx, path: &Path, cfg: MmapVecConfig, ops: &[VOp
                         return None;
                     }
                 };
-                // a sync that changed nothing is not a new sync point
-                if snaps.last().map(|s: &Snap| s.file != file).unwrap_or(true) {
+                // a sync that changed neither the file nor the logical content is not a new sync
+                // point; a sync after which the file is unchanged although the content changed is
+                // one (the file must now hold the content)
+                let logical_now: Vec<_> = model.iter().map(|e| e.bytes()).collect::<Vec<_>>();
+                let same_logical = snaps.last().map(|s: &Snap| s.logical.len() == logical_now.len() && s.logical.iter().zip(logical_now.iter()).all(|(x, y)| x == y)).unwrap_or(false);
+                if snaps.last().map(|s: &Snap| s.file != file).unwrap_or(true) || !same_logical {
                     if snaps.len() >= 6 {
                         snaps.remove(0);
                     }
@@ -1133,9 +1168,20 @@ fn run_reorder(ctx: &mut Ctx, gens: &[RGen], fault: &Fault) {
         let vals = rgen_values(g);
         let sign = if g.neg { -1 } else { 1 };
         let mut pre = None;
+        let reject_mid = g.runs.len() % 3 == 2 && vals.len() >= 2;
+        if reject_mid {
+            ctx.label("reorder_refused_push_mid_build");
+        }
         let r = try_call(|| -> zipora::Result<()> {
             let mut b = ZReorderMapBuilder::new(&path, vals.len(), sign)?;
-            for x in &vals {
+            for (k, x) in vals.iter().enumerate() {
+                if reject_mid && k == vals.len() / 2 {
+                    // a value outside the 40-bit range is refused; the builder stays usable and
+                    // the refused value is not part of what was written
+                    if b.push(1usize << 41).is_ok() {
+                        return Err(zipora::ZiporaError::invalid_data("out-of-range value accepted"));
+                    }
+                }
                 b.push(*x as usize)?;
             }
             pre = std::fs::read(&path).ok();
